@@ -670,12 +670,12 @@ Definition bc_strip (n : nat) (d : bdec) (l : list stmt) : list stmt :=
   | MDeepNB => strip_block (bd_front d) true n l
   end.
 
-(* A decision the text back end cannot carry out: the moved statement is compound (only its first line is
-   re-indented), or it is to be inserted after an `if` that is the last statement of its block (the insertion
-   point is computed on the next, dedented line).  The resulting text is not valid Python and the WHOLE pass is
-   rolled back ([bcx]); at the end of the file the second case raises IndexError instead (C04, row 34). *)
+(* A decision the text back end cannot carry out: a compound statement to be moved BEFORE the `if` (the node is
+   inserted with only its first line re-indented).  The resulting text is not valid Python and the WHOLE pass is
+   rolled back ([bcx]).  Statements moved BEHIND the `if` are inserted as indented text right after the end of the
+   `if` (after repair of _move_after_scope) and always succeed. *)
 Definition bc_bad (d : bdec) (rest : list stmt) : bool :=
-  negb (is_simple_stmt (bd_stmt d)) || (negb (bd_front d) && match rest with [] => true | _ => false end).
+  bd_front d && negb (is_simple_stmt (bd_stmt d)).
 
 Definition bc_implicit (p b rest : list stmt) : option bdec :=
   if anyb b then match rest with [] => None | _ => bc_decide (fuel_of p) false b rest end else None.
